@@ -1087,6 +1087,8 @@ impl<'de, R: Read<'de>> Parser<R> {
         let mut res = u64::from(first_digit);
         loop {
             let digit = match self.peek_or_null()? {
+                // In a decimal literal, `e` is the exponent marker, not a digit
+                b'e' | b'E' if radix == 10 => return self.parse_num_tail(radix, pos, res),
                 c @ b'0'..=b'9' => c - b'0',
                 c @ b'a'..=b'f' => 10 + (c - b'a'),
                 c @ b'A'..=b'F' => 10 + (c - b'A'),
@@ -1119,6 +1121,10 @@ impl<'de, R: Read<'de>> Parser<R> {
     ) -> Result<f64> {
         loop {
             let digit = match self.peek_or_null()? {
+                // In a decimal literal, `e` is the exponent marker, not a digit
+                b'e' | b'E' if radix == 10 => {
+                    return self.parse_exponent(pos, significand, exponent);
+                }
                 c @ b'0'..=b'9' => c - b'0',
                 c @ b'a'..=b'f' if radix >= 10 => 10 + (c - b'a'),
                 c @ b'A'..=b'F' if radix >= 10 => 10 + (c - b'A'),
